@@ -295,7 +295,7 @@ def _judge_points(ctx, env):
     ctx.evaluated()
     if kind == "discrete":
         for i in range(len(ref.pts)):
-            if geom.dist(lib.get_point(i), ref.pts[i]) > tolp:
+            if not (geom.dist(lib.get_point(i), ref.pts[i]) <= tolp):
                 ctx.violation("point-off-definition:discrete", f"get_point({i}) = {lib.get_point(i)} but point {i} is {ref.pts[i]}")
                 return False
         ctx.count("judged:point-on-definition")
@@ -398,14 +398,14 @@ def _judge_lengths(ctx, env, pairs):
         if exact:
             tol = 1e-9 * ref.L
             ctx.count("judged:length-exact")
-            if abs(lac - lref) > tol:
+            if not (abs(lac - lref) <= tol):
                 ctx.violation(f"length-not-polyline:{env['kind']}:{direction}",
                               f"{_desc(env)}: get_length({a}, {c}) = {lac!r} but the polyline between the two curve points measures {lref!r}")
                 continue
         elif not coarse:
             tol = 0.02 * lref + 1.1 * env["deficit"] + 1e-9 * ref.L
             ctx.count("judged:length-vs-dense")
-            if abs(lac - lref) > tol:
+            if not (abs(lac - lref) <= tol):
                 ctx.violation(f"length-vs-dense:{env['kind']}:{direction}",
                               f"{_desc(env)}: get_length({a}, {c}) = {lac!r}, dense reference {lref!r} (tolerance {tol:.3e}, "
                               f"chord deficit of the defining points {env['deficit']:.3e})")
@@ -415,7 +415,7 @@ def _judge_lengths(ctx, env, pairs):
         if pr.get("none_args"):
             # bounds are the default arguments; the `length` property is the same number
             l2, l3 = _call_length(ctx, env, ref.lo, ref.hi), float(env["lib"].length)
-            if l2 is not None and (abs(l2 - lac) > 1e-12 * ref.L or abs(l3 - lac) > 1e-12 * ref.L):
+            if l2 is not None and not (abs(l2 - lac) <= 1e-12 * ref.L and abs(l3 - lac) <= 1e-12 * ref.L):
                 ctx.violation(f"length-defaults:{env['kind']}", f"{_desc(env)}: get_length()={lac!r}, get_length(bounds)={l2!r}, .length={l3!r}")
         if m is None:
             continue
@@ -453,7 +453,7 @@ def _judge_discretize(ctx, env, probes):
             continue
         pa, pc = np.asarray(lib.get_point(a), dtype=float), np.asarray(lib.get_point(c), dtype=float)
         ctx.count("judged:discretize-ends")
-        if geom.dist(pts[0], pa) > tolp or geom.dist(pts[-1], pc) > tolp:
+        if not (geom.dist(pts[0], pa) <= tolp and geom.dist(pts[-1], pc) <= tolp):
             ctx.violation(f"discretize-ends:{kind}:{'reversed' if a > c else 'forward'}",
                           f"{_desc(env)}: {call} runs from {pts[0].tolist()} to {pts[-1].tolist()} but get_point gives "
                           f"{pa.tolist()} and {pc.tolist()}")
@@ -543,7 +543,7 @@ def _judge_closest(ctx, env, queries):
         if width < 0.999:
             ctx.count("closest:multimodal-judged")
         tol = 1e-4 * ref.size if kind != "discrete" else 1e-12 * ref.size
-        if dp > dstar + tol:
+        if not (dp <= dstar + tol):
             where = ""
             if kind == "linear":
                 # structural feature for the finding key: is the true closest point one of the defining points (where the
@@ -656,7 +656,7 @@ def _judge_edge(ctx, env, e, spacing):
             return
         ctx.count("judged:edge-length-approx")
         tol = 0.02 * lref + 1.1 * env["deficit"] + 1e-6 * ref.L
-    if abs(length - lref) > tol:
+    if not (abs(length - lref) <= tol):
         ctx.violation(f"edge-length:{env['kind']}:{direction}-curve-direction",
                       f"{_desc(env)}: OnCurve edge from parameter {ta} to {tb}: Edge.length = {length!r}, curve length between the "
                       f"vertices {lref!r} (tolerance {tol:.3e})")
@@ -680,7 +680,7 @@ def _judge_edge(ctx, env, e, spacing):
             l2 = float(edge.length)
             lref2 = _ref_length(env, t1, t3)
             tol2 = 1e-6 * ref.L if kind in xr.EXACT_KINDS else 0.02 * lref2 + 1.1 * env["deficit"] + 1e-6 * ref.L
-            if abs(l2 - lref2) > tol2:
+            if not (abs(l2 - lref2) <= tol2):
                 ctx.violation(f"edge-length-after-vertex-move:{env['kind']}",
                               f"{_desc(env)}: after moving the vertex from parameter {t2} to {t3}: Edge.length = {l2!r}, curve length "
                               f"between the vertices {lref2!r}")
